@@ -504,12 +504,35 @@ func stringContents(c *engine.Ctx) {
 	slots := gen.StringSlots(full, 2)
 	edge := &sbom.Edge{From: "a", Type: sbom.Edge_contains, To: []string{"b", "c"}}
 	eslots := gen.StringSlots(edge, 0)
-	c.Bound("string-contents", fmt.Sprintf("(%d node + %d edge string-valued places) x all %d ordered pairs of a %d-entry near-string menu", len(slots), len(eslots), len(menu)*len(menu), len(menu)))
+	// all ordered pairs of the near-string menu, plus every word-like literal of the library's sources against its
+	// own case variants and against itself with a blank or a letter attached (values the code itself knows: a comparison
+	// that canonicalises recognised words equates them)
+	var pairs [][2]string
+	for i := range menu {
+		for j := range menu {
+			pairs = append(pairs, [2]string{menu[i], menu[j]})
+		}
+	}
+	nMenuPairs := len(pairs)
+	lits, _ := gen.Literals()
+	for _, l := range lits {
+		if len(l) > 16 || strings.ContainsAny(l, "%\\\"`") {
+			continue
+		}
+		for _, v := range []string{strings.ToLower(l), strings.ToUpper(l), l + " ", "x" + l} {
+			if v != l {
+				pairs = append(pairs, [2]string{l, v})
+			}
+		}
+	}
+	c.Bound("string-contents", fmt.Sprintf("(%d node + %d edge string-valued places) x (all %d ordered pairs of a %d-entry near-string menu + %d pairs of a source literal with a case variant / padded / prefixed form of itself)", len(slots), len(eslots), nMenuPairs, len(menu), len(pairs)-nMenuPairs))
 	run := func(kind string, base proto.Message, sl []gen.StringSlot, eq equaler, sum func(m proto.Message) string) {
 		for si := range sl {
-			for i := range menu {
-				for j := range menu {
-					si, i, j := si, i, j
+			for pi := range pairs {
+				{
+					si, i, j := si, 0, 1
+					menu := pairs[pi][:]
+					pi := pi
 					c.Case(func() any {
 						return map[string]any{"kind": kind, "place": sl[si].Label, "first": menu[i], "second": menu[j]}
 					}, func(t *engine.T) *engine.Violation {
@@ -531,7 +554,7 @@ func stringContents(c *engine.Ctx) {
 						if !e1 && menu[i] == menu[j] {
 							return engine.Violate("reflexive", "", "%s place %s: the same value %q on both sides compares unequal", kind, sl[si].Label, menu[i])
 						}
-						t.State(fmt.Sprintf("str|%s|%s|%d|%d", kind, sl[si].Label, i, j))
+						t.State(fmt.Sprintf("str|%s|%s|%d", kind, sl[si].Label, pi))
 						t.Outcome(fmt.Sprintf("string-contents equal=%v", e1))
 						return nil
 					})
